@@ -8,4 +8,5 @@ let table : (string * (Model.sexp -> Model.sexp)) list = [
   ("retry", Model.run_retry);
   ("pck", Model.run_pck);
   ("heap", Model.run_heap);
+  ("ccel", Model.run_ccel);
 ]
